@@ -19,6 +19,15 @@ Oracle (no model): overlay/frame clauses on the real objects, n x k locked incre
 plain traffic, sentinel sections, "a call returned while the lock was held", get-or-create through
 tasks.Unit.FromScope / envs.Unit.Envs / waits.WaitManager.ForScope from 2..64 goroutines; the same
 under the race detector.
+
+Service family (dssvc): harness/cmd/datascope svcgen/svcdrive drive the REAL service units on trees of real
+app.Scope objects (scope.New/NewChild) through random SEQUENCES of get-or-create (all three services),
+tasks.Unit.BindScope / Clear, plain SetValue/Value of the service keys (discovered at run time) and LockData
+sections, against the compiled model m_dssvc (lean/Goat/Model/DataScopeSvc.lean: each service operation as a
+composition of the overlay operations; own slot absent / stored nil / instance, lookup = nearest own slot);
+after every operation both sides print which instance every node resolves to for every service (instances
+numbered in order of creation).  Theorems bind_is_sticky / clear_is_sticky / own_slot_is_sticky (all trees, all
+later operation sequences not writing that slot), goc_creates_own / goc_finds, gocRun_is_svcGoc.
 """
 import concurrent.futures
 import glob
@@ -44,7 +53,13 @@ META = dict(
              "get-or-create skeleton of every function of the repository that mentions LockData (lock, read under the lock, "
              "nil test of that read, create, store under the same key, release exactly once on every return path, no use of "
              "the scope itself) checked by `decide` against the spellings runSkeleton reads; the list of such functions "
-             "and the list of plain writers of the service keys are themselves facts.",
+             "and the list of plain writers of the service keys are themselves facts.  Service units on scope trees "
+             "(Model/DataScopeSvc: BindScope/Clear/get-or-create/plain writes/locked sections as compositions of the overlay "
+             "operations): bind_is_sticky, clear_is_sticky, own_slot_is_sticky (for all trees and ALL later operation sequences "
+             "that do not write the node's own slot the node keeps resolving to what it was given, whatever its ancestors "
+             "get), goc_creates_own, goc_finds, gocRun_is_svcGoc (the interpreter's four-call get-or-create is the pure one); "
+             "tied to the real tasks/envs/waits units by a differential over random operation sequences on scope trees "
+             "that compares, after every operation, the instance every node resolves to.",
         design_ref="DESIGN.md 3 C13"),
     level_note="Trusted: Lean kernel (axioms propext/Classical.choice/Quot.sound only); sync.RWMutex is a reader-writer "
                "lock and a critical section without blocking calls is one atomic action; the hand-written model's "
@@ -56,7 +71,9 @@ META = dict(
                "not tracked beyond `lockerEscapes`), that a constructor called under the lock does not use the scope "
                "(checked one call deep: it calls no method on the parameter that receives the scope), and the theorem's "
                "hypothesis that nobody writes the service key with a plain SetValue meanwhile (the plain writers "
-               "tasks.Unit.BindScope / Clear / TaskManager.Create are listed by tie_key_plain_writers, not covered).",
+               "tasks.Unit.BindScope / Clear / TaskManager.Create are listed by tie_key_plain_writers; what BindScope / Clear do to the "
+               "tree sequentially is covered by the service family and bind_is_sticky / clear_is_sticky, their races with a "
+               "concurrent get-or-create are not).",
     technique="Lean 4 proof (induction on chains; invariants over a labelled transition system, all schedules) + "
               "differential correspondence with blocking probes + go/ast structural tie (datascope methods and the "
               "get-or-create skeleton of every LockData user) + concurrent oracle (-race)",
@@ -105,7 +122,7 @@ def _run_model(ctx, model, ops, tag):
 MAX_CASES_PER_PROCESS = 600
 
 
-def _run_impl(ctx, go, hops, tag, shards=1, fast=False):
+def _run_impl(ctx, go, hops, tag, shards=1, fast=False, sub="drive"):
     """run the hinted ops on the real code, split at `reset` boundaries into chunks of at most
     MAX_CASES_PER_PROCESS cases, `shards` driver processes at a time.  (The driver decides "this probe is
     blocked" from a dump of all goroutine stacks; probes left blocked on the scopes of finished cases stay in
@@ -133,7 +150,7 @@ def _run_impl(ctx, go, hops, tag, shards=1, fast=False):
         ip, op = ctx.path("%s.%d.hops" % (tag, i)), ctx.path("%s.%d.impl" % (tag, i))
         open(ip, "w").write("\n".join(part) + "\n")
         with open(ip, "rb") as fin, open(op, "wb") as fout:
-            p = subprocess.Popen([go, "drive"], stdin=fin, stdout=fout, stderr=subprocess.PIPE, env=env)
+            p = subprocess.Popen([go, sub], stdin=fin, stdout=fout, stderr=subprocess.PIPE, env=env)
             try:
                 _, err = p.communicate(timeout=1800)
             except subprocess.TimeoutExpired:
@@ -158,10 +175,115 @@ def _run_impl(ctx, go, hops, tag, shards=1, fast=False):
     return [l for got in results for l in got]
 
 
-def _pair(ctx, go, model, ops, tag, shards=1, fast=False):
+def _pair(ctx, go, model, ops, tag, shards=1, fast=False, sub="drive"):
     mres = _run_model(ctx, model, ops, tag)
-    ires = _run_impl(ctx, go, _hints(ops, mres), tag, shards, fast)
+    ires = _run_impl(ctx, go, _hints(ops, mres), tag, shards, fast, sub)
     return mres, ires
+
+
+# ----------------------------------------------------------------------------- the service family (dssvc)
+SVC_RE = re.compile(r"^(goc|bind|clear) |^(set|get|lset|lget) [tew] ")
+
+
+def _is_svc(ops):
+    return any(SVC_RE.match(o) for o in ops)
+
+
+def _svc_explain(op, impl, model):
+    """Spec verdict for a difference of the service family: (concrete, text)"""
+    if impl in ("hang", "panic", "err") or impl.startswith("crash"):
+        return True, "the call %s (a service call on an unlocked scope tree, single goroutine)" % (
+            {"hang": "did not return", "panic": "panicked", "err": "returned an error"}.get(impl, "crashed the process"))
+    mi, ii = model.split(" obs "), impl.split(" obs ")
+    if mi[0] != ii[0] and mi[0].startswith("inst") and ii[0].startswith("inst"):
+        return True, ("`%s` returned instance %s; the nearest own slot on the node's chain (own slots are written by "
+                      "BindScope/Clear/SetValue/get-or-create on that node alone) holds %s" % (op, ii[0][5:], mi[0][5:]))
+    if len(mi) == 2 and len(ii) == 2:
+        names = dict(t="tasks.Unit (key pipTasks)", e="envs.Unit", w="waits.WaitManager")
+        for ms, is_ in zip(mi[1].split(";"), ii[1].split(";")):
+            if ms != is_:
+                u = ms[0]
+                mv, iv = ms[2:].split(","), is_[2:].split(",")
+                for n, (a, b) in enumerate(zip(mv, iv)):
+                    if a != b:
+                        return True, ("after `%s`, %s resolves scope %d to instance %s; its chain's nearest own slot holds %s "
+                                      "(a child keeps its own value when it has one, whatever its parent holds now)" % (
+                                          op, names.get(u, u), n, b, a))
+    return False, ""
+
+
+def _svc_family(ctx, go, failed_notes):
+    """random sequences of service operations on scope trees, real services against the model m_dssvc"""
+    model = ctx.build_model("m_dssvc")
+    ncases = ctx.pick(6000, 80000)
+    ops = []
+    for f in sorted(glob.glob(os.path.join(lib.ROOT, "corpus", "C13", "svc", "*.ops"))):
+        ops += _read_ops(f)
+    ncorpus = len(ops)
+    rc, err = ctx.run([go, "svcgen", str(ncases)], stdout=ctx.path("svcgen.ops"))
+    if rc != 0:
+        ctx.fatal("svc generator failed: " + err[-300:])
+    ops += _read_ops(ctx.path("svcgen.ops"))
+    mres, ires = _pair(ctx, go, model, ops, "svc", shards=14, sub="svcdrive")
+    ctx.evaluations += len(ops)
+    ctx.extra["svc_ops"] = dict(corpus=ncorpus, generated=len(ops) - ncorpus, cases=ncases)
+    ctx.rule += ("; service family: corpus/C13/svc/*.ops, then %d generated cases: a tree of 2..9 real app.Scope nodes (chain / random "
+                 "tree / bushy, sometimes a second root), 8..40 ops over goc t|e|w (FromScope/Envs/ForScope), bind (BindScope with an "
+                 "existing instance, biased to the one the node or its parent resolves to now), clear, plain set/get of the service "
+                 "key, lock/lset/lget/commit sections (calls that would wait for a held mutex are skipped on both sides); after each "
+                 "op the instance every node resolves to, per service, is compared; non-trivial = >=2 instances created, a bind and a "
+                 "child scope" % ncases)
+    start, shown = 0, 0
+    follow = shadow = rebind_same = 0
+    for i in range(1, len(ops) + 1):
+        if i == len(ops) or ops[i].startswith("reset"):
+            cops, cres = ops[start:i], ires[start:i]
+            kinds = set(o.split(" ", 1)[0] for o in cops)
+            created = len(set(r.split()[1] for o, r in zip(cops, cres) if o.startswith("goc") and r.startswith("inst ")))
+            nt = created >= 2 and "bind" in kinds and any(o.startswith("child") for o in cops)
+            ctx.note_case("svc\n" + "\n".join(cops), nontrivial=nt, kind="svc")
+            if shown < 1 and nt and "lock" in kinds and len(cops) < 30:
+                ctx.samples.append(dict(ops=cops, impl=cres, model=mres[start:i]))
+                shown += 1
+            start = i
+    for o, r in zip(ops, ires):
+        ctx.histogram["svc:" + o.split(" ", 1)[0] + ":" + r.split(" ", 1)[0]] += 1
+    mism = [i for i in range(len(ops)) if ires[i] != mres[i]]
+    firsts, seen = [], set()
+    for i in mism:
+        _, st = _case_of(ops, i)
+        if st not in seen:
+            seen.add(st)
+            firsts.append(i)
+    ctx.extra["svc_differing_cases"] = len(firsts)
+    # `abort` lines follow from an earlier hang of the same process; a difference in a returned value says more than a hang
+    firsts = [i for i in firsts if ires[i] != "abort"]
+    firsts.sort(key=lambda i: (ires[i] == "hang", i))
+    found = False
+    for i in firsts[:2]:
+        case, _ = _case_of(ops, i)
+
+        def still_fails(lines):
+            m, im = _pair(ctx, go, model, lines, "svcdd", fast=True, sub="svcdrive")
+            return any(x != y for x, y in zip(m, im))
+        small = ctx.ddmin(case, still_fails, keep_prefix=1)
+        m, im = _pair(ctx, go, model, small, "svcdd", sub="svcdrive")
+        j = next((k for k in range(len(small)) if m[k] != im[k]), None)
+        if j is None:
+            small, m, im = case, mres[i - len(case) + 1:i + 1], ires[i - len(case) + 1:i + 1]
+            j = len(small) - 1
+        conc, why = _svc_explain(small[j], im[j], m[j])
+        found |= conc
+        ann = ["%s   => impl: %s%s" % (l, im[k], "" if im[k] == m[k] else "   MODEL: " + m[k]) for k, l in enumerate(small)]
+        ctx.violation("impl-vs-spec" if conc else "impl-vs-model",
+                      "service units on a scope tree: implementation and model differ at op %d of the case%s" % (j, (": " + why) if why else ""),
+                      lines=small, annotations=ann + [("spec: " if conc else "model: ") + m[j], "impl: " + im[j]] + failed_notes,
+                      concrete=conc)
+    zero = [k for k in ("svc:goc:skip", "svc:bind:ok", "svc:clear:ok", "svc:lset:ok", "svc:lget:inst", "svc:bind:bad", "svc:get:skip")
+            if not ctx.histogram.get(k)]
+    if zero:
+        ctx.notes.append("svc generator coverage gap, zero hits for: " + ", ".join(zero))
+    return found
 
 
 def _case_of(ops, idx):
@@ -349,6 +471,8 @@ def run(ctx):
                       "implementation and model differ at op %d of the case%s" % (j, (": " + why) if why else ""),
                       lines=small, annotations=ann + (["spec: " + m[j], "impl: " + im[j]] if conc else
                                                       ["model: " + m[j], "impl: " + im[j]]), concrete=conc)
+    # --- the service units on scope trees (sequences of get-or-create / bind / clear / plain / locked sections)
+    concrete_found |= _svc_family(ctx, go, ob_notes)
     # --- the property's clauses on the implementation alone
     deep = bool(firsts) or bool(failed)
     n_or = ctx.pick(600, 15000) * (4 if deep and ctx.quick() else 1)
@@ -432,8 +556,12 @@ def replay(ctx, path):
             print(p.stderr[:3000])
         print("replay:", "still failing" if bad else "all clauses hold")
         return 1 if bad else 0
-    model = ctx.build_model("m_datascope")
-    mres, ires = _pair(ctx, go, model, ops, "replay")
+    if _is_svc(ops):
+        model = ctx.build_model("m_dssvc")
+        mres, ires = _pair(ctx, go, model, ops, "replay", sub="svcdrive")
+    else:
+        model = ctx.build_model("m_datascope")
+        mres, ires = _pair(ctx, go, model, ops, "replay")
     rc = 0
     for o, a, b in zip(ops, ires, mres):
         print("op    ", o)
